@@ -82,13 +82,14 @@ struct Interp {
         if (present >= 3) ctx.nontrivial();
     }
     // unparse rebuilds the canonical text; parsing that text again yields the same components; canonical text is a fixed point
-    void roundtrip(const std::string &text) {
+    void roundtrip(const std::string &text, bool compare = true) {
         VT_CHECK(ctx, LA(c14_unparse(0)) == 1, "mismatch", "unparse-failed; unparse returned FALSE for \"" << printable(text, 60) << "\"");
         VT_CHECK(ctx, LA(c14_type_is_url(0)), "mismatch", "unparse-changed-class; the object is no longer a URL after unparse");
         Comps after = read(0);
         const char *canon = LA(c14_comp(0, 7));
         std::string ctext = canon ? canon : "";
         int ok = LA(c14_parse(1, ctext.data(), (long)ctext.size(), 0xFF));
+        if (!compare) { if (ok == 1) { read(1); LA(c14_unparse(1)); LA(c14_comp(1, 7)); } return; }
         VT_CHECK(ctx, ok == 1, "mismatch", "reparse-failed; the canonical text \"" << printable(ctext, 60) << "\" does not parse");
         Comps again = read(1);
         for (int k = 0; k < 7; k++)
@@ -106,8 +107,26 @@ struct Interp {
         LA(c14_lookup(word.c_str(), (int)(((op.i(0) % 4) + 4) % 4), (int)(op.i(1) % 65536)));
         int ok = LA(c14_parse(0, text.data(), (long)text.size(), (int)(op.i(2) & 1 ? 0xFF : 0x00)));
         VT_CHECK(ctx, ok == 1, "mismatch", "parse-failed; new_from_ptr returned NULL");
-        read(0);
-        roundtrip(text);
+        Comps got = read(0);
+        // The round trip is promised for URLs of the accepted shape only.  An arbitrary string is of that shape exactly when
+        // re-assembling its parsed components (every present one non-empty, a host wherever user/passwd/port appear) gives
+        // the string back; everything else is run through unparse/re-parse for memory safety alone.
+        bool shaped = true;
+        for (auto &g : got) if (g.first && g.second.empty()) shaped = false;
+        if ((got[1].first || got[2].first || got[4].first) && !got[3].first) shaped = false;
+        if (got[2].first && !got[1].first) shaped = false;
+        if (shaped) {
+            std::string a;
+            if (got[0].first) a += got[0].second + ":";
+            std::string rest;
+            if (got[1].first) { rest += got[1].second; if (got[2].first) rest += ":" + got[2].second; rest += "@"; }
+            if (got[3].first) { rest += got[3].second; if (got[4].first) rest += ":" + got[4].second; }
+            if (got[5].first) rest += got[5].second;
+            if (got[6].first) rest += "?" + got[6].second;
+            shaped = (text == a + rest) || ((got[3].first || got[0].first) && text == a + "//" + rest);
+        }
+        if (shaped) { roundtrip(text); ctx.label("raw-bytes:accepted-shape"); }
+        else { roundtrip(text, false); ctx.label("raw-bytes:safety-only"); }
         if (text.size() >= 3) ctx.nontrivial();
         ctx.label("raw-bytes");
     }
